@@ -21,7 +21,7 @@ DESUGAR = ("codegen/generate.rs is desugared textually before compilation (async
            "async blocks->closures, #[async_trait] dropped); task::spawn/block_on run their closure inline, "
            "so there is exactly one schedule: the sequential one async-std's single block_on produces")
 TOKEN_STUB = ("LogRefEntry::insertable_reference_string stubbed: records the id, returns a 1-byte marker "
-              "(token text is decided by Engine S and by u_token on concrete ids)")
+              "(the token text is Engine S's subject: c12-token-roundtrip, c03-token-literals, c06-roundtrip)")
 TEMP_STUB = "AsyncTempFile::new stubbed: creates the model path 'h' (creation may fail); temp-name formatting not executed"
 UNLINK_STUB = "std::fs::remove_file stubbed: unlink in the model; unlinking the temp file is assumed not to fail"
 PR_STUB = ("in the driver harnesses process_references is replaced by its contract (None iff the stop flag is seen, which the "
@@ -366,7 +366,7 @@ def _run_k(ob):
 RULE = ("one evaluation = one verification condition handed to the SAT/SMT solver (Kani: every check of the harness; "
         "Engine S: every query); distinct_nontrivial = distinct assertions written for this property that the solver "
         "proved on a reachable path, plus distinct reachability witnesses (kani::cover / sat twins) that were satisfied")
-TRUSTED = ["Kani 0.68 / CBMC 6.11 / cadical", "z3 4.8.12 (cvc5 1.0 as cross-check)", "rustc MIR semantics as modelled by Kani",
+TRUSTED = ["Kani 0.68 / CBMC 6.11 / cadical", "z3 (python bindings of the tooling venv; cvc5 1.0 as cross-check in the thorough tier)", "rustc MIR semantics as modelled by Kani",
            "the shims and stubs listed under assumptions"]
 
 
